@@ -75,6 +75,14 @@ def random_mods(r, allow_b64=True):
             a = list(STD_ALPHA)
             r.shuffle(a)
             m["alpha"] = a
+        elif r.random() < 0.3:
+            # an alphabet that contains characters with a meaning in regular expressions (bcrypt's starts with "./")
+            a = list(STD_ALPHA)
+            metas = list(b".^$|()[]*?{},-/")
+            r.shuffle(metas)
+            for k, ch in zip(r.sample(range(64), r.randint(2, 8)), metas):
+                if ch not in a: a[k] = ch
+            m["alpha"] = a
     return m
 
 
@@ -179,6 +187,16 @@ def c01(res, tier, seed):
                 enc = b64m.b64encode(b"#" * i + bytes(unit) * (len(pat) // len(unit) + r.randint(3, 6)) + b" ").translate(trans)
                 bufs.append(enc[:400]); bufs.append(b"".join(bytes([x, 0]) for x in enc)[:400])
         bufs += [b"", bytes(pat)]
+        # near misses: a true variant with ONE byte changed - the first / second / last two bytes (for a wide xor-ed string the high
+        # byte of a character must be the key too), and every byte that is a regexp metacharacter (base64 strings are searched
+        # through a generated regular expression in which the symbols of the alphabet must be literal)
+        META = b".^$|()[]*?{},+\\-/"
+        for v in variants(r, pat, m)[:4]:
+            pos = {0, 1, len(v) - 2, len(v) - 1} | {i for i, x in enumerate(v) if x in META}
+            for i in sorted(p_ for p_ in pos if 0 <= p_ < len(v))[:10]:
+                for delta in ((1,) if tier == "quick" else (1, 0x20, 0x80)):
+                    w = v[:i] + bytes([v[i] ^ delta]) + v[i + 1:]
+                    bufs.append(b"zz " + w + b" zz")
         # occurrences at the two ends of the buffer with exactly one (8-bit or wide) alphanumeric / other character beyond them: the
         # word-boundary tests of `fullword` read the neighbours, which here are the first / last bytes of the data
         vs = variants(r, pat, m)
